@@ -144,9 +144,57 @@ def interrupted(obj, n):
     return half, mid, list(g)
 
 
+class _GuardedObject:
+    """a real selector object whose calls cannot take the harness down: an exception from a query is reported as a failing case of the
+    property (a selector answers every query for every length) and a neutral answer is handed on, so the run goes on to its verdict"""
+    NEUTRAL = {'indices': list, 'count': lambda: -1, 'first': lambda: -1, 'step': lambda: 0, 'long_str': str}
+
+    def __init__(self, obj, ctx, desc):
+        self.__dict__.update(_o=obj, _ctx=ctx, _desc=desc)
+
+    def _report(self, name, a, e):
+        seen = self._ctx.notes.setdefault('selector_exceptions', [])
+        if len(seen) < 5:
+            seen.append('%s.%s%r: %s: %s' % (self._desc, name, a, type(e).__name__, e))
+            self._ctx.fail('%s.%s%r raised %s: %s' % (self._desc, name, a, type(e).__name__, e), dict(kind='selector-raises', selector=self._desc, call=name, args=list(a)),
+                           sig=dict(kind='selector-raises'))
+
+    def __getattr__(self, name):
+        attr = getattr(self._o, name)
+        if not callable(attr):
+            return attr
+
+        def call(*a):
+            if name == 'gen_indices':
+                def gen():
+                    try:
+                        yield from attr(*a)
+                    except Exception as e:
+                        self._report(name, a, e)
+                return gen()
+            try:
+                return attr(*a)
+            except Exception as e:
+                self._report(name, a, e)
+                return self.NEUTRAL.get(name, lambda: None)()
+        return call
+
+
+class _Guarded:
+    def __init__(self, S, ctx):
+        self._S, self._ctx = S, ctx
+
+    def Sample(self, *a):
+        return _GuardedObject(self._S.Sample(*a), self._ctx, 'Sample%r' % (a,))
+
+    def Slice(self, *a):
+        return _GuardedObject(self._S.Slice(*a), self._ctx, 'Slice%r' % (a,))
+
+
 def run(ctx):
     repo.setup()
     from TotalDepth.common import Slice as S
+    SG = _Guarded(S, ctx)
 
     M = ctx.pick(8, 12)
     cc = {'MaxN': str(M), 'NoneV': 'NoneV'}
@@ -168,7 +216,7 @@ def run(ctx):
                 'sample cases distinct by (N, n), non-trivial when 1 < N < n; parse rows distinct by part-class tuple')
     for row in rows:
         a, b, c, n, idx = _opt(row['a']), _opt(row['b']), _opt(row['c']), row['n'], row['idx']
-        s = S.Slice(a, b, c)
+        s = SG.Slice(a, b, c)
         got_idx = s.indices(n)
         got_gen = list(s.gen_indices(n))
         got_cnt = s.count(n)
@@ -228,7 +276,7 @@ def run(ctx):
     traces = []
     for N in range(1, 2 * M + 1):
         tr = [dict(op='new_sample', N=N)]
-        sm = S.Sample(N)
+        sm = SG.Sample(N)
         for n in range(0, 2 * M + 1):
             tr.append(dict(op='indices', n=n, r=sm.indices(n)))
             tr.append(dict(op='gen_indices', n=n, r=list(sm.gen_indices(n))))
@@ -249,7 +297,7 @@ def run(ctx):
     for t in range(ntr):
         if rng.random() < 0.5:
             N = rng.choice([1, 2, 3, rng.randint(1, 64), rng.randint(1, big)])
-            obj = S.Sample(N)
+            obj = SG.Sample(N)
             tr = [dict(op='new_sample', N=N)]
             lens = [rng.choice([0, 1, N - 1, N, N + 1, 2 * N - 1, 2 * N + 1, rng.randint(0, big)]) for _ in range(6)]
             lens = [max(0, x) for x in lens]
@@ -257,7 +305,7 @@ def run(ctx):
             span = rng.choice([5, 50, big])
             a, b = [rng.choice([None, rng.randint(-span, span)]) for _ in range(2)]
             c = rng.choice([None, 1, 2, 3, rng.randint(1, span), -1, -2, -rng.randint(1, span)])
-            obj = S.Slice(a, b, c)
+            obj = SG.Slice(a, b, c)
             tr = [dict(op='new_slice', a=[] if a is None else [a], b=[] if b is None else [b],
                        c=[] if c is None else [c])]
             lens = [rng.choice([0, 1, span - 1, span, span + 1, rng.randint(0, big)]) for _ in range(6)]
@@ -271,7 +319,7 @@ def run(ctx):
         # every length is asked about twice (the same selector is applied to frame arrays of the same length again and again),
         # and the caller uses up the list it was given: what a call returns belongs to the caller
         # other selector objects are in use at the same time (one per frame array of a file); what they select does not depend on it
-        others = [S.Sample(5), S.Slice(1, None, 2), S.Slice(None, None, -3)]
+        others = [SG.Sample(5), SG.Slice(1, None, 2), SG.Slice(None, None, -3)]
         alone = [(o_.indices(37), o_.count(37), o_.first(37)) for o_ in others]
         for n in lens + lens[:2]:
             for op in rng.sample(['indices', 'gen_indices', 'count', 'first'], 4):
@@ -299,12 +347,12 @@ def run(ctx):
     # the generator, the count), that (N, n) becomes a trace for TLC to judge - the sweep only selects, it gives no verdict
     nsel = 0
     for N in range(1, 65):
-        obj = S.Sample(N)
+        obj = SG.Sample(N)
         for n in range(0, 2001):
             li = obj.indices(n)
             if nsel < 40 and (li != list(obj.gen_indices(n)) or len(li) != obj.count(n) or (li and li[0] != obj.first(n))):
                 nsel += 1
-                o2 = S.Sample(N)
+                o2 = SG.Sample(N)
                 traces.append([dict(op='new_sample', N=N), dict(op='indices', n=n, r=o2.indices(n)), dict(op='gen_indices', n=n, r=list(o2.gen_indices(n))),
                                dict(op='count', n=n, r=o2.count(n)), dict(op='first', n=n, r=o2.first(n))])
     ctx.notes['sample_sweep_selected'] = nsel
